@@ -76,6 +76,11 @@ def descriptors(kind, tier="quick"):
                         yield {"fmt": fmt, "n": n, "anchor": a, "dur": d, "via": via}
 
 
+def mixed_sign(d):
+    vals = [v for v in d.values() if v]
+    return any(v > 0 for v in vals) and any(v < 0 for v in vals)
+
+
 def build(impl, desc):
     """-> (recurrence, anchor point, duration object, second point or None)"""
     a = impl.build_point(desc["anchor"])
